@@ -25,8 +25,8 @@ ASSUMPTIONS = [
     "termination is decided on logical steps (sys.monitoring PY_START budget), wall-clock only as watchdog",
 ]
 PLAN = {"quick": dict(topologies=1600, D=12), "thorough": dict(topologies=12000, D=150)}
-FLOORS = {"quick": {"constructions": 10000, "depth_values_checked": 60000, "values_at_max_depth": 8000, "codec_roundtrips": 50000},
-          "thorough": {"constructions": 80000, "depth_values_checked": 500000, "values_at_max_depth": 70000, "codec_roundtrips": 400000}}
+FLOORS = {"quick": {"constructions": 10000, "depth_values_checked": 60000, "values_at_max_depth": 8000, "codec_roundtrips": 50000, "topologies_with_direct_edges": 150},
+          "thorough": {"constructions": 80000, "depth_values_checked": 500000, "values_at_max_depth": 70000, "codec_roundtrips": 400000, "topologies_with_direct_edges": 1000}}
 
 
 def is_cyclic(n, es):
@@ -91,7 +91,13 @@ def run_shard(sh):
         rng = case_rng(sh, i)
         clear_typelib_caches(also_typing=True)
         n, es = mine[i]
-        edges = [(a, b, rng.choice(topo.CLOSING_KINDS)) for a, b in es]
+        # closing edges (Optional/list/dict/tuple/`| None`) and, in 40% of the topologies, direct class-typed fields on part of a cycle
+        if rng.random() < 0.4:
+            edges = topo.closing_kinds_with_direct(rng, es)
+            if any(k == "direct" for _, _, k in edges):
+                sh.count("topologies_with_direct_edges")
+        else:
+            edges = [(a, b, rng.choice(topo.CLOSING_KINDS)) for a, b in es]
         flavour = rng.choice(["dataclass", "dataclass", "namedtuple", "typeddict"])
         tp = topo.Topology(n, edges, nested=rng.random() < 0.25, flavour=flavour, tag=f"c07_{sh.shard}_{i}", payload=rng.random() < 0.8)
         tp.build()
